@@ -227,17 +227,56 @@ func constraintOnEdge(b *ssa.BasicBlock, si int, is tracker) iset {
 	if !ok {
 		return full()
 	}
-	if is(c.X) {
-		if k, ok := constInt(c.Y); ok {
-			return cmpSet(c.Op, k)
+	if k, ok := constInt(c.Y); ok {
+		if core, off := affineOf(c.X); is(core) && !overflows(k, off) {
+			return cmpSet(c.Op, k-off)
 		}
 	}
-	if is(c.Y) {
-		if k, ok := constInt(c.X); ok {
-			return cmpSet(swapOp(c.Op), k)
+	if k, ok := constInt(c.X); ok {
+		if core, off := affineOf(c.Y); is(core) && !overflows(k, off) {
+			return cmpSet(swapOp(c.Op), k-off)
 		}
 	}
 	return full()
+}
+
+// affineOf strips `x + c` / `x - c` (constant c): e = core + off. (Used so that a condition written
+// on `n - 4` constrains n; wrap-around is ignored, which is sound for the int-typed lengths it is
+// applied to.)
+func affineOf(e ssa.Value) (ssa.Value, int64) {
+	var off int64
+	for i := 0; i < 4; i++ {
+		b, ok := e.(*ssa.BinOp)
+		if !ok {
+			break
+		}
+		if b.Op == token.ADD {
+			if k, ok := constInt(b.Y); ok {
+				off += k
+				e = b.X
+				continue
+			}
+			if k, ok := constInt(b.X); ok {
+				off += k
+				e = b.Y
+				continue
+			}
+		}
+		if b.Op == token.SUB {
+			if k, ok := constInt(b.Y); ok {
+				off -= k
+				e = b.X
+				continue
+			}
+		}
+		break
+	}
+	return e, off
+}
+
+func overflows(k, off int64) bool {
+	r := k - off
+	return (off > 0 && r > k) || (off < 0 && r < k)
 }
 
 // valueSets computes, for every block of fn, the set of values the tracked value may have when
